@@ -19,7 +19,7 @@ function, must agree with what the AST walk saw; a disagreement is reported and 
 """
 import json, os, re, subprocess
 from .core import CheckError, coq_bytes
-from .translate import strip_comments, func_body, c_unescape, cpp_value, STR
+from .translate import strip_comments, func_body, c_unescape, cpp_value, STR, reachable_body
 from .skel import clang_ast, functions, strip
 
 # ------------------------------------------------------------------------------------------------ registry
@@ -376,14 +376,14 @@ class Sym:
         return r
 
     # ---------------------------------------------------------------- statements
-    def stmts(self, lst, env, kret, kend):
+    def stmts(self, lst, env, kret, kend, kbrk=None):
         if not lst:
             return kend(env)
         s, rest = lst[0], lst[1:]
-        cont = lambda env: self.stmts(rest, env, kret, kend)
+        cont = lambda env: self.stmts(rest, env, kret, kend, kbrk)
         kind = s.get("kind")
         if kind == "CompoundStmt":
-            return self.stmts(s.get("inner", []), env, kret, cont)
+            return self.stmts(s.get("inner", []), env, kret, cont, kbrk)
         if kind == "NullStmt":
             return cont(env)
         if kind == "DeclStmt":
@@ -430,17 +430,56 @@ class Sym:
 
             def kc(env, c):
                 c = self.truth(env, c)
-                th = lambda e: self.stmts([inner[1]], e, kret, cont)
-                el = (lambda e: self.stmts([inner[2]], e, kret, cont)) if len(inner) > 2 else cont
+                th = lambda e: self.stmts([inner[1]], e, kret, cont, kbrk)
+                el = (lambda e: self.stmts([inner[2]], e, kret, cont, kbrk)) if len(inner) > 2 else cont
                 return self.branch(c, env, th, el)
             return self.expr(inner[0], env, kc)
-        if kind in ("WhileStmt", "ForStmt", "DoStmt", "GotoStmt", "LabelStmt", "SwitchStmt", "BreakStmt", "ContinueStmt"):
+        if kind == "BreakStmt" and kbrk is not None:
+            return kbrk(env)
+        if kind == "SwitchStmt":
+            return self.switch(s, env, kret, cont, kbrk)
+        if kind in ("WhileStmt", "ForStmt", "DoStmt", "GotoStmt", "LabelStmt", "BreakStmt", "ContinueStmt"):
             raise Loop(kind)
         if kind in ("BinaryOperator", "CallExpr", "ImplicitCastExpr", "CStyleCastExpr", "UnaryOperator", "ParenExpr", "CompoundAssignOperator"):
             if kind == "CompoundAssignOperator" or (kind == "UnaryOperator" and s.get("opcode") in ("++", "--")):
                 return ("other", "in-place arithmetic")
             return self.expr(s, env, lambda env, v: cont(env))
         return ("other", "statement " + str(kind))
+
+    def switch(self, s, env, kret, cont, kbrk_outer):
+        """switch (e) { case K: ...; break/return  ...  default: ... }  ==  if (e == K1) ... else if (e == K2) ... else default.
+        Every section must end in break or return (no fall-through into the next section); `break` continues after the switch."""
+        inner = [c for c in s.get("inner", []) if isinstance(c, dict) and c.get("kind")]
+        if len(inner) < 2 or inner[-1].get("kind") != "CompoundStmt":
+            return ("other", "switch without a compound body")
+        sections = []          # (labels, statements); label = value node or None for default
+        for n in inner[-1].get("inner", []):
+            labels = []
+            while n.get("kind") in ("CaseStmt", "DefaultStmt"):
+                sub = [c for c in n.get("inner", []) if isinstance(c, dict) and c.get("kind")]
+                labels.append(sub[0] if n["kind"] == "CaseStmt" else None)
+                n = sub[-1]
+            if labels:
+                sections.append((labels, [n]))
+            elif sections:
+                sections[-1][1].append(n)
+            else:
+                return ("other", "statement before the first case label")
+        for labels, body in sections:
+            if not body or body[-1].get("kind") not in ("BreakStmt", "ReturnStmt"):
+                return ("other", "switch section falls through into the next one")
+        cases = [(l, b) for ls, b in sections for l in ls if l is not None]
+        default = [b for ls, b in sections if None in ls]
+
+        def kv(env, v):
+            def chain(i, env):
+                if i == len(cases):
+                    return self.stmts(default[0], env, kret, cont, cont) if default else cont(env)
+                lab, body = cases[i]
+                return self.expr(lab, env, lambda env, k: self.branch(self.cmp("==", v, k), env,
+                                                                       lambda e: self.stmts(body, e, kret, cont, cont), lambda e: chain(i + 1, e)))
+            return chain(0, env)
+        return self.expr(inner[0], env, kv)
 
     def run(self, node):
         params = [c["name"] for c in node.get("inner", []) if c.get("kind") == "ParmVarDecl" and "name" in c]
@@ -624,8 +663,24 @@ def loop_consts(run):
     v["cg_none"] = c_unescape(m.group(1)) if m else None
     m = re.search(r'snprintf\s*\(\s*resultBuf\s*,\s*resultBufSize\s*,\s*' + STR + r"\s*\)\s*;\s*return\s+SNOOPY_DATASOURCE_FAILURE", cb)
     v["cg_missing_arg"] = c_unescape(m.group(1)) if m else None
-    m = re.search(r'snprintf\s*\(\s*searchString\s*,\s*searchStringLen\s*,\s*' + STR + r"\s*,\s*arg\s*\)", cb)
-    v["cg_num_fmt"] = c_unescape(m.group(1)) if m else None
+    v["cg_num_fmt"] = None
+    rb = reachable_body(cg, "snoopy_datasource_cgroup")
+    m = re.search(r'snprintf\s*\(\s*searchString\s*,\s*searchStringLen\s*,\s*' + STR + r"\s*,\s*(\w+)\s*\)", rb)
+    m2 = re.search(r"snoopy_util_string_findLineStartingWith\s*\(\s*(\w+)\s*,\s*searchString\s*\)", rb)
+    if m and m2 and re.search(r"strlen\s*\(\s*%s\s*\)\s*\+\s*2" % re.escape(m.group(2)), rb) and re.search(r"snoopy_util_string_nullTerminateLine\s*\(", rb):
+        what, where = m.group(2), m2.group(1)
+        if what == "arg" and where == "procPidCgroupContent":
+            v["cg_num_fmt"] = c_unescape(m.group(1))
+        else:
+            # moved into a static helper: it must be called with (content, arg) in the positions of the names used there
+            for hm in re.finditer(r"static\s+[\w\s\*]+?\b(\w+)\s*\(([^;{)]*)\)\s*\{", cg):
+                params = [re.split(r"[\s\*]+", x.strip())[-1] for x in hm.group(2).split(",")]
+                if what in params and where in params:
+                    cm = re.search(r"cgroupEntry\s*=\s*%s\s*\(([^;]*)\)\s*;" % re.escape(hm.group(1)), cb)
+                    if cm:
+                        args = [x.strip() for x in cm.group(1).split(",")]
+                        if len(args) == len(params) and args[params.index(what)] == "arg" and args[params.index(where)] == "procPidCgroupContent":
+                            v["cg_num_fmt"] = c_unescape(m.group(1))
     m = re.search(r'strtok_r\s*\(\s*procPidCgroupContent\s*,\s*' + STR, cb)
     v["cg_line_sep"] = c_unescape(m.group(1)) if m else None
     fh = strip_comments(run.src("src/util/file-snoopy.h"))
